@@ -272,7 +272,7 @@ def gen_dro_sep(rng, cfg):
             add({'op': 'supp', 'amb': an, 'scen': sc, 'set': ref.set_constraints(blocks, zs), 'blocks': blocks},
                 [sa] + list(s_z.values()), role='supp', anchor=sa)
         P = gen_probset(rng, S)
-        add({'op': 'prob', 'amb': an, 'set': ref.prob_constraints('m.p', P)}, [sa], role='prob', anchor=sa)
+        add({'op': 'prob', 'amb': an, 'set': ref.prob_constraints('m.p', P)}, [sa], role='prob')
         ambs[an] = {'supports': supports, 'P': P, 'moments': []}
         if moment_mode:
             nz_ = zs['z']
@@ -313,7 +313,7 @@ def gen_dro_sep(rng, cfg):
                         ref.worst_case_expectation_moments(P, boxes, [0.0] * nz_, ambs[an]['moments'] + [(ev, mlo, mhi)])
                 except RuntimeError:
                     continue
-                add({'op': 'expt', 'amb': an, 'scen': sc, 'set': cs}, [sa] + list(s_z.values()), role='expt', anchor=sa)
+                add({'op': 'expt', 'amb': an, 'scen': sc, 'set': cs}, [sa] + list(s_z.values()), role='expt')
                 ambs[an]['moments'].append((ev, mlo, mhi))
             ambs[an]['boxes'] = boxes
 
@@ -536,7 +536,8 @@ def gen_dro_gen(rng, cfg):
             t['anchor'] = obj_sid          # the model is bounded only once its constraints are in
             t['deps'] = sorted(set(t['deps']) | {obj_sid})
     # in dro every expression must follow every decision variable (finding K6); part.gen_combo guarantees it
-    return {'family': 'dro-gen' if kind == 'dro' else 'ro-ldr', 'model': 'm', 'cone': 'lp', 'ints': c['integer_y'], 'zs': {'z': c['n']},
+    return {'family': 'dro-gen' if kind == 'dro' else 'ro-ldr', 'model': 'm', 'cone': 'lp', 'ints': c['integer_y'],
+            'zs': {an: hi - lo for an, lo, hi in c['arrays']},
             'steps': steps, 'expect': {'opt': c['expect']['opt']}, 'xnames': ['t'], 'pool': c['pool']}
 
 
